@@ -625,7 +625,7 @@ func (c *Client) Start() error {
 	}
 	if c.WriteQueueSize == 0 {
 		c.WriteQueueSize = 256
-	} else if (c.WriteQueueSize & (c.WriteQueueSize - 1)) != 0 {
+	} else if c.WriteQueueSize < 0 || (c.WriteQueueSize&(c.WriteQueueSize-1)) != 0 {
 		return fmt.Errorf("WriteQueueSize must be a power of two")
 	}
 	if c.MaxPacketSize == 0 {
